@@ -70,6 +70,19 @@ def gen_prec(seed, shard, n):
         elif zc < 0.3:
             mud = 0.0                      # motion in right ascension only
         dty = rng.choice([10.0, 50.0, 100.0])
+        if rng.random() < 0.12:
+            # a star next to a pole whose proper motion (in declination only) carries it across the pole
+            sg = rng.choice([1.0, -1.0])
+            pdec = sg * (90.0 - rng.uniform(0.01, 0.2))
+            pmud = sg * rng.uniform(3.0, 10.0) / 3600.0
+            res = []
+            for kk in (1, 2):
+                jj = j0 + kk * dty * 365.25
+                pr, pdd = C.precession_equatorial(Epoch(j0), Epoch(jj), A(ra), A(pdec), A(0.0), A(pmud))
+                qr, qd = C.precession_equatorial(Epoch(j0), Epoch(jj), A(ra), A(pdec))
+                res += [F3(U(float(pr), float(pdd))), F3(U(float(qr), float(qd)))]
+            yield dict(info, k="pm", fn="eqpole", p1=res[0], q1=res[1], p2=res[2], q2=res[3], mua=fx(0.0), mud=fx(pmud),
+                       cd=fx(math.cos(math.radians(pdec))), dty=fx(dty), maxdec=0.0)
         if abs(dec) < 80:
             # the same start Angle objects are reused for every call, as an ephemeris loop would
             for fn, tag in ((C.precession_equatorial, "eq"), (C.precession_ecliptical, "ec"), (C.precession_newcomb, "nc")):
@@ -97,5 +110,14 @@ def gen_prec(seed, shard, n):
         a0, l0 = rng.uniform(0, 360), rng.uniform(0, 360)
         i1, a1, ll1 = C.orbital_equinox2equinox(Epoch(j0), Epoch(j1), A(i0), A(a0), A(l0))
         i2, a2, ll2 = C.orbital_equinox2equinox(Epoch(j1), Epoch(j0), i1, a1, ll1)
+        # a loop through a third equinox (any inclination, also orbits lying almost in the ecliptic)
+        i3 = rng.choice([10 ** rng.uniform(-2.5, -0.5), rng.uniform(0.3, 170.0), i0])
+        j2 = J2000 + rng.uniform(-5, 5) * 36525.0
+        ja, jb = J2000 + rng.uniform(-5, 5) * 36525.0, J2000 + rng.uniform(-5, 5) * 36525.0
+        ei, ea, el_ = A(i3), A(a0), A(l0)
+        for (s0, s1) in ((ja, jb), (jb, j2), (j2, ja)):
+            ei, ea, el_ = C.orbital_equinox2equinox(Epoch(s0), Epoch(s1), ei, ea, el_)
+        yield dict(info, k="el3", i0=fx(i3), a0=fx(a0), l0=fx(l0), i2=fx(float(ei)), a2=fx(float(ea)), l2=fx(float(el_)),
+                   maxdec=0.0, el=[i3, a0, l0])
         yield dict(info, k="el", i0=fx(i0), a0=fx(a0), l0=fx(l0), i1=fx(float(i1)), i2=fx(float(i2)), a2=fx(float(a2)),
                    l2=fx(float(ll2)), maxdec=0.0, el=[i0, a0, l0], w5=w5)
